@@ -16,7 +16,9 @@ from bounded import nixgen as G
 
 NAMES = ["pname", "version", "src", "meta", "doCheck", "buildInputs", "foo-bar", "a'", "_x", "passthru"]
 SCALARS = ['"trl"', "true", "false", "null", "1", "42", "lib.licenses.asl20", "./src", '"v${version}"', "pkgs.hello",
-           '"héllo"', "-1", "a.b.c or d", "(f x)", "f x y", "!x", "a + b", "a // b", "x: x", "<nixpkgs>", "~/x", "1.5"]
+           '"héllo"', "-1", "a.b.c or d", "(f x)", "f x y", "!x", "a + b", "a // b", "x: x", "<nixpkgs>", "~/x", "1.5",
+           # strings that end in an escaped quote / an escaped backslash, and empty strings
+           '"say \\"hi\\""', '"C:\\\\"', '""', "'" * 4]
 
 
 def sp(n):
